@@ -53,7 +53,7 @@ func ReqHostSetFromFirstPathSegment(req *bfe_basic.Request) {
 
 // ReqHostSuffixReplace replaces suffix of hostname.
 func ReqHostSuffixReplace(req *bfe_basic.Request, originSuffix, newSuffix string) {
-	hostname := req.HttpRequest.URL.Host
+	hostname := req.HttpRequest.Host
 	if !strings.HasSuffix(hostname, originSuffix) {
 		return
 	}
